@@ -56,6 +56,26 @@ Theorem time_delta_add_comm : forall t d,
 Proof. exact time_delta_add_comm_l. Qed.
 Print Assumptions time_delta_add_comm.
 
+(* ALL operation sequences: every expression over epochs and durations built with +, - and unary minus that the
+   specification accepts evaluates to the signed sum of its leaves, and is an epoch iff the signed number of
+   epochs in it is 1 (a duration iff 0).  The six laws above are instances. *)
+Theorem expression_affine : forall t r, run t = Some r ->
+  value (ojd r) == aff t /\ kweight (okind r) = weight t.
+Proof. exact run_affine_l. Qed.
+Print Assumptions expression_affine.
+
+(* two accepted expressions with the same signed sum of leaves denote the same point *)
+Theorem expression_same_point : forall t t' r r',
+  run t = Some r -> run t' = Some r' -> aff t == aff t' -> weight t = weight t' ->
+  value (ojd r) == value (ojd r') /\ okind r = okind r'.
+Proof. exact run_affine_eq. Qed.
+Print Assumptions expression_same_point.
+
+(* ... and an expression IS accepted when all leaves share one scale and every intermediate result is an epoch or a duration *)
+Theorem expression_defined : forall sc t, wellformed sc t = true -> exists r, run t = Some r /\ oscale r = sc.
+Proof. exact run_defined. Qed.
+Print Assumptions expression_defined.
+
 (* identically for every duration format: the format of an operand never influences the instant computed,
    and the same length given in two formats (days / jd / seconds / timedelta) yields the same (jd1, jd2) *)
 Theorem duration_format_irrelevant :
